@@ -331,6 +331,13 @@ def build_shape(repo, items):
         else:
             v = resolve(v)
         if a == 'functions':
+            if (isinstance(v, ast.Call) and isinstance(v.func, ast.Name) and v.func.id == 'list' and len(v.args) == 1 and not v.keywords
+                    and isinstance(v.args[0], ast.Call) and isinstance(v.args[0].func, ast.Name) and v.args[0].func.id == 'map'
+                    and len(v.args[0].args) == 2 and not v.args[0].keywords and isinstance(v.args[0].args[0], ast.Name)):
+                # list(map(F, xs)) calls F on every item of xs in order and collects the results: [F(x) for x in xs]
+                m = v.args[0]
+                v = ast.ListComp(elt=ast.Call(func=m.args[0], args=[ast.Name(id='_item', ctx=ast.Load())], keywords=[]),
+                                 generators=[ast.comprehension(target=ast.Name(id='_item', ctx=ast.Store()), iter=m.args[1], ifs=[], is_async=0)])
             ok = (isinstance(v, ast.ListComp) and len(v.generators) == 1 and not v.generators[0].ifs
                   and not v.generators[0].is_async
                   and isinstance(v.generators[0].target, ast.Name) and isinstance(resolve(v.generators[0].iter), ast.Name)
